@@ -78,6 +78,8 @@ class Run:
             self.oblige("translators", False, str(e))
             return
         built = r.returncode == 0
+        self.oblige("translators regenerate Tables.v and Grammar.v from the current source",
+                    not xv.TRANSLATOR_ERRORS, "; ".join(xv.TRANSLATOR_ERRORS))
         if not built:
             # which file failed?
             m = re.findall(r'File "\./(theories/[^"]+)", line (\d+)', r.stdout)
@@ -470,12 +472,38 @@ def f1_known(run, c, what):
                         "element of 'inner items<>' the next element is read 4 bytes early)")
 
 
+def sup_coverage(run, C):
+    """how many specifications of the corpus satisfy the (decidable) hypothesis of the C01 / C02
+    theorems: sup_b evaluated in Coq on the dumped real ASTs"""
+    import coqterm as ct
+    obs = [o for o in C["obs"] if o["ast"]["outcome"] == "ok" and o["gen_default"]["outcome"] == "ok"]
+    shards = xv.shard(obs, 8)
+
+    def runit(sh_i):
+        si, sh = sh_i
+        body = ["From XdrProofs Require Import SupB.", "Open Scope string_scope.",
+                "Eval vm_compute in (map sup_b [%s])." % ";\n".join(ct.ast(o["ast"]) for o in sh)]
+        out = xv.coq_eval("supb_%s_%d" % (run.pid, si), "\n".join(body))
+        return re.findall(r'\b(true|false)\b', out.split("=", 1)[1].split(": list")[0])
+    try:
+        vals = [v for r in xv.par(runit, list(enumerate(shards))) for v in r]
+    except (TieBroken, IndexError) as e:
+        run.cov["sup_b_evaluation_failed"] = str(e)[:300]
+        return
+    n_true = vals.count("true")
+    run.cov["specs_satisfying_theorem_hypothesis_sup_b"] = "%d of %d" % (n_true, len(vals))
+    outside = [C["specs"][o["index"]][1][-120:] for o, v in zip(obs, vals) if v == "false"]
+    if outside:
+        run.cov["specs_outside_sup_b_samples"] = outside[:5]
+
+
 def check_c01(run):
     run.theorem_step(["C01"])
     C = get_corpus(run)
     if C is None:
         return
     corpus_ties(run, C)
+    sup_coverage(run, C)
     k3bad = set(C["k3"]["dis"])
     for n, c in enumerate(C["cases"]):
         if c["kind"] not in ("valid", "valid_ctx", "valid_big"):
@@ -504,6 +532,7 @@ def check_c02(run):
     if C is None:
         return
     corpus_ties(run, C)
+    sup_coverage(run, C)
     k3bad = set(C["k3"]["dis"])
     for n, c in enumerate(C["cases"]):
         if c["kind"] not in ("valid", "valid_ctx", "valid_big"):
@@ -788,6 +817,8 @@ def check_c09(run):
             if "alloc" in l:
                 run.violation("a length field makes the decoder request memory the allocator cannot provide", case_replay(C, c))
             continue
+        if C["specs"][c["spec"]][0] == "fixed_validonly":
+            continue    # zero-wire-size elements: a count is then a legitimate encoding of that many values
         for a, peak in xv.allocs(l):
             bound = (len(c["input"]) + 8) * maxsize.get(c["spec"], 8) * (ntypes.get(c["spec"], 1) + 1)
             run.evaluations += 1
@@ -977,7 +1008,7 @@ def check_c11(run):
         by_set.setdefault(tuple(sorted(map(repr, g))), []).append(g)
     groups = list(by_set.values())
     if run.tier == "quick":
-        groups = grng.sample(groups, min(len(groups), 120))
+        groups = grng.sample(groups, min(len(groups), 700))
     for gi, orders in enumerate(groups):
         for oi, decls in enumerate(orders):
             texts.append(specgen.print_spec(decls))
@@ -1162,6 +1193,8 @@ def hostile_texts(run):
     base = [
         "enum e { A = 0xZZ };", "enum e { A = 0x80000000 };", "enum e { A = 0x };", "enum e { A = 0x0x10 };", "enum e { A = 99999999999 };",
         "const A = 1; const A = 2;", "enum e { A = 1 }; enum f { A = 2 };", "const A = 1; enum e { A = 2 };",
+        "const N = 4; struct s { int a[N]; opaque d<N>; };", "typedef opaque v[n];", "struct s { unsigned int a<_>; };",
+        "const X = 1; union u switch (int k) { case X: int a; };", "struct a { int b; }; typedef a c<N>;",
         "struct s { int int32_t; };", "struct s { int u32; };", "struct s { int bool; };", "struct s { int *hyper_; int *u64; };",
         "union u switch (int k) { case 1: int xs<>; };", "union u switch (int k) { case 1: int xs[2]; };",
         "union u switch (int k) { case 1: int *p; };", "union u switch (int k) { case 1: int u32; };",
@@ -1368,9 +1401,72 @@ CHECKS = {"C07": check_c07, "C11": check_c11, "C12": check_c12, "C13": check_c13
 
 
 def replay(pid, path):
+    """re-run one recorded case against the current /repo; exit 1 if it still fails"""
     data = json.load(open(path))
-    print(json.dumps(data, indent=1))
-    return 0
+    print("replaying %s: %s" % (path, data.get("what", "")))
+    still = False
+    if "input_hex" in data and "spec" in data and "type" in data:
+        o = xv.run_front([data["spec"]], "replay")[0]
+        if o["gen_default"]["outcome"] != "ok":
+            print("generate: %s" % o["gen_default"])
+            return 1
+        rs, types, failed = xv.build_runner([(0, o["gen_default"]["path"], o["ast"])], "replay")
+        if failed:
+            print("the generated module does not compile:\n" + failed[0][1][-2000:])
+            return 1
+        line = xv.run_runner(rs, ["0 %s %d %s" % (data["type"], int(data.get("offset", 0)), data["input_hex"])])[0]
+        obs = xv.strip_alloc(line)
+        print("observed : " + obs[:2000])
+        if data.get("expected"):
+            print("expected : " + str(data["expected"])[:2000])
+            still = obs != data["expected"]
+        elif data.get("expected_value"):
+            print("expected value : " + str(data["expected_value"])[:2000])
+            still = data["expected_value"] not in obs
+        else:
+            try:
+                print("model    : " + xv.k3_show(o["ast"], data["type"], int(data.get("offset", 0)), data["input_hex"], "replay")[:2000])
+            except TieBroken as e:
+                print("model: %s" % e)
+            still = obs != xv.strip_alloc(str(data.get("observed", ""))) or "PANIC" in obs or obs.startswith("ABORT")
+            still = "PANIC" in obs or obs.startswith("ABORT") or xv.strip_alloc(str(data.get("observed", ""))) == obs
+    elif "spec_a" in data and "spec_b" in data:
+        oa, ob = xv.run_front([data["spec_a"], data["spec_b"]], "replay")
+        ia, ib = items_of(oa), items_of(ob)
+        print("outcomes: %s / %s; items equal: %s" % (oa["gen_default"]["outcome"], ob["gen_default"]["outcome"], ia == ib))
+        still = ia != ib
+    elif "args" in data:
+        exe = build_cli(None)
+        import subprocess
+        for f, txt in data.get("files", {}).items():
+            os.makedirs(os.path.dirname(f), exist_ok=True)
+            open(f, "w").write(txt)
+        p = subprocess.run([exe] + data["args"], stdout=subprocess.PIPE, stderr=subprocess.PIPE)
+        print("exit=%d stdout=%d bytes (expected success: %s, expected stdout: %s bytes)" % (
+            p.returncode, len(p.stdout), data.get("expected_success"), data.get("expected_stdout_len")))
+        still = (p.returncode == 0) != bool(data.get("expected_success")) or (
+            data.get("expected_stdout_len") is not None and len(p.stdout) != data["expected_stdout_len"])
+    elif "spec" in data:
+        o = xv.run_front([data["spec"]], "replay")[0]
+        print("tree: %s  Ast::new: %s  generate: %s" % ("accepted" if o["tree"] else "rejected", o["ast"]["outcome"], o["gen_default"]["outcome"]))
+        if o["ast"]["outcome"] == "ok":
+            print(json.dumps({k: o["ast"][k] for k in ("constants", "types", "generics")})[:3000])
+            if "expected" in data:
+                print("expected: " + json.dumps(data["expected"])[:3000])
+                still = any(o["ast"].get(k) != v for k, v in data["expected"].items()) if isinstance(data["expected"], dict) else (o["ast"]["generics"] != data["expected"])
+        else:
+            print(o["ast"])
+            still = o["ast"]["outcome"] == "panic" or o["gen_default"]["outcome"] == "panic"
+        if "rustc" in data:
+            rs, types, failed = xv.build_runner([(0, o["gen_default"]["path"], o["ast"])], "replay") if o["gen_default"]["outcome"] == "ok" else (None, None, [(0, "no output")])
+            still = bool(failed)
+            if failed:
+                print(failed[0][1][-1500:])
+    else:
+        print(json.dumps(data, indent=1)[:4000])
+        still = True
+    print("STILL FAILING" if still else "no longer failing")
+    return 1 if still else 0
 
 
 def setup():
@@ -1409,4 +1505,7 @@ def main(argv):
         CHECKS[pid](run)
     except TieBroken as e:
         run.oblige("machinery", False, str(e))
+    except Exception:  # never crash without a verdict
+        import traceback
+        run.oblige("the check ran to completion", False, traceback.format_exc()[-3000:])
     return run.finish()
